@@ -60,9 +60,47 @@
                            (step != 0 || length >= 1) &&                                    \
                            !PR(self, i, dir, commonPrefix, (step > 0 ? length + step + step : length + 1))) \
   __CPROVER_decreases(step)
+
+/* FindSplit: "Find the furthest object that shares more than commonPrefix bits with the first
+ * one, using binary search": first <= split < last, and the split leaf does share more bits
+ * (maximality of the split needs monotonicity of delta over sorted keys -- lemma key_lemma --
+ * and is checked on the whole tree in the bounded unit c14_index) */
+#define FNSPEC_FindSplit                                                                       \
+  __CPROVER_requires(CRT_VALID(self) && 0 <= first && first < last && last < NLEAF(self))      \
+  __CPROVER_ensures(first <= __CPROVER_return_value && __CPROVER_return_value < last)         \
+  __CPROVER_ensures(__CPROVER_return_value == first ||                                         \
+                    DELTA(self, first, __CPROVER_return_value) > DELTA(self, first, last))     \
+  __CPROVER_assigns()
+#define LOOPSPEC_FindSplit_0                                                                   \
+  __CPROVER_assigns(step, split)                                                               \
+  __CPROVER_loop_invariant(first <= split && split < last && 1 <= step && step <= last - first && \
+                           (split == first || DELTA(self, first, split) > commonPrefix))      \
+  __CPROVER_decreases(step)
+
+/* operator(): "Record parent_child relationships": children are split / split+1, as leaf exactly
+ * when they coincide with the range end, and both get this internal node as parent */
+#define CRT_VALID_FULL(s)                                                                      \
+  (CRT_VALID(s) && (s)->nodeParent_.size_ == 2 * (s)->leafMorton_.size_ - 1 &&                 \
+   FRESH((s)->nodeParent_.ptr_, (s)->nodeParent_.size_) &&                                     \
+   (s)->internalChildren_.size_ == (s)->leafMorton_.size_ - 1 &&                               \
+   FRESH((s)->internalChildren_.ptr_, (s)->internalChildren_.size_))
+#define CH1(s, k) ((s)->internalChildren_.ptr_[k].first)
+#define CH2(s, k) ((s)->internalChildren_.ptr_[k].second)
+#define FNSPEC_CreateRadixTree_call                                                            \
+  __CPROVER_requires(CRT_VALID_FULL(self) && 0 <= internal && internal < NLEAF(self) - 1)      \
+  __CPROVER_requires(DELTA(self, internal, internal + 1) != DELTA(self, internal, internal - 1)) \
+  /* both children are valid nodes, consecutive in leaf order: child1 covers [.., split], child2 [split+1, ..] */ \
+  __CPROVER_ensures(0 <= CH1(self, internal) && CH1(self, internal) < 2 * NLEAF(self) - 1 &&   \
+                    0 <= CH2(self, internal) && CH2(self, internal) < 2 * NLEAF(self) - 1)     \
+  __CPROVER_ensures(CH2(self, internal) / 2 == CH1(self, internal) / 2 + 1)                    \
+  __CPROVER_ensures(self->nodeParent_.ptr_[CH1(self, internal)] == 2 * internal + 1 &&         \
+                    self->nodeParent_.ptr_[CH2(self, internal)] == 2 * internal + 1)           \
+  __CPROVER_assigns(__CPROVER_object_whole(self->nodeParent_.ptr_), __CPROVER_object_whole(self->internalChildren_.ptr_))
 #endif
 
 #ifdef SPEC_HARNESS
+void h_FindSplit(void) { struct CreateRadixTree *s; int a, b; FindSplit(s, a, b); }
+void h_CreateRadixTree_call(void) { struct CreateRadixTree *s; int k; CreateRadixTree_call(s, k); }
 void h_RangeEnd(void) {
   struct CreateRadixTree *s;
   int i;
